@@ -142,7 +142,7 @@ pub fn run(ctx: &Ctx) -> i32 {
         let caps: Vec<String> = pool.into_iter().filter(|n| n.len() <= 2 && n.chars().next().map(|c| c.is_uppercase()).unwrap_or(false)).collect();
         let _ = HARVESTED_PARAMS.set(caps);
     }
-    let n = ctx.scale(15000, 100000);
+    let n = ctx.scale(30000, 100000);
     let mut trees = check::draw(ctx.seed, 0xC16, n, 420);
     let open_f3 = known.iter().any(|k| k.property == "C16" && k.status == "open" && k.signature == "multiple_into_targets_hashmap_order");
     let mut my_hashes: Vec<u64> = Vec::with_capacity(n);
